@@ -1417,7 +1417,11 @@ class LogixDriver(CIPDriver):
                 return final_response
 
         failed_response = ReadTagFragmentedResponsePacket(request, None)
-        failed_response._error = request.error or "One or more fragment responses failed"
+        failed_response._error = (
+            request.error
+            or next((resp.error for resp in responses if not resp), None)
+            or "One or more fragment responses failed"
+        )
         self.__log.debug(f"Reassembled Response: {failed_response!r}")
         return failed_response
 
@@ -1448,7 +1452,11 @@ class LogixDriver(CIPDriver):
                 return final_response
 
         failed_response = WriteTagFragmentedResponsePacket(request, None)
-        failed_response._error = request.error or "One or more fragment responses failed"
+        failed_response._error = (
+            request.error
+            or next((resp.error for resp in responses if not resp), None)
+            or "One or more fragment responses failed"
+        )
         self.__log.debug(f"Reassembled Response: {failed_response!r}")
         return failed_response
 
